@@ -22,6 +22,39 @@ CHECKS = {
         "Trusts CPython as reference semantics and the probe kit's determinism. Loop bodies "
         "do not read the loop variable here (that is C01/C06).",
         "DESIGN.md section 3, C05"),
+    "C06": (
+        "enumeration of scope trees x binding-role catalogue (smallest first) + Hypothesis-drawn deeper "
+        "trees with two tracked names; oracle: value log of fresh integers and final globals vs CPython",
+        "Scope trees (module, function, class, lambda, comprehension) in which every scope takes one role "
+        "for a tracked name (assign, augmented, walrus, parameter kinds, loop/comprehension target, "
+        "def/class/import binding, global/nonlocal + assign/read/augmented, captured-and-rebound ...) are "
+        "rendered so that every write uses a fresh integer and every scope logs the value it sees; all "
+        "trees with one inner scope, a seeded fraction (quick) / all (thorough) of the trees with two, "
+        "sampled chains of three and Hypothesis trees to depth 4 are run; log and globals must equal "
+        "CPython's. Illegal programs are dropped by compile(), raising originals are counted.",
+        "Roles are one per scope per name; host 3.12 only in this tier (other hosts: C15 machinery).",
+        "DESIGN.md section 3, C06"),
+    "C09": (
+        "complete sweep of the identifier x role x feature matrix + metamorphic alpha-renaming of "
+        "Hypothesis-drawn programs + fresh-suffix / single-binding-site invariants on every output",
+        "Every cell of 37 risky identifiers x 8 roles x 28 helper-introducing features is a small program "
+        "that binds the identifier in that role, uses the feature and prints the identifier before and "
+        "after; converted under both wrappers it must behave like the original. Generated programs are "
+        "additionally converted after a consistent renaming of their identifiers onto the risky set. On "
+        "every conversion the suffixes handed out must be pairwise distinct, every __ol_ name must carry "
+        "one, and single-purpose temporaries must be bound at one site only.",
+        "One open finding (builtins called by plain name) is excluded by a static feature->builtin table.",
+        "DESIGN.md section 3, C09"),
+    "C14": (
+        "complete enumeration of import statement forms x placement x 8 configurations over a vendored, "
+        "self-logging package tree; oracle: import log, identity class of bound objects, sys.modules delta",
+        "39 statement forms (plain, dotted to depth 4, aliased, multi-module, from-imports of attributes and "
+        "of not-yet-imported submodules, relative level 1 and 2, interleaved/repeated) in 5 placements "
+        "(module, function, class body, global-declared, captured by a nested function) run with "
+        "sys.modules reset; which modules were imported in which order, what each name is bound to, the "
+        "new sys.modules keys and the final globals must equal CPython's.",
+        "Relative forms run with __name__/__package__ set inside the vendored package.",
+        "DESIGN.md section 3, C14"),
     "C07": (
         "complete sweep of probe-instrumented statement templates x 3 placements x 8 configurations + "
         "Hypothesis-drawn target patterns with a probe at every leaf; oracle: equality of the ordered "
